@@ -882,3 +882,15 @@ func execSU(p suProg, c *hx.Case) error {
 func TestPropSearchUnique(t *testing.T) {
 	hx.Run(t, hx.Spec{Prop: "C19", Rule: "sorted slices of 0..40 distinct ints; every element, both neighbours of every element and one drawn target vs linear search; non-trivial = length >= 2"}, genSU, execSU)
 }
+
+func FuzzPPQ(f *testing.F) {
+	hx.Fuzz(f, hx.Spec{Prop: "C19"}, genPPQ, execPPQ)
+}
+
+func FuzzSortedCache(f *testing.F) {
+	hx.Fuzz(f, hx.Spec{Prop: "C19"}, genSC, execSC)
+}
+
+func FuzzZipTree(f *testing.F) {
+	hx.Fuzz(f, hx.Spec{Prop: "C19"}, genZT, execZT)
+}
